@@ -247,8 +247,7 @@ Proof.
     split; [reflexivity|]. split; [|split; [|split; [cbn [length]; lia|split; [congruence|lia]]]].
     + exists [], (x10 :: b). repeat split; [left; auto|right; split; [exact Hn0|exists b; auto]].
     + cbn [length]. rewrite load_loop_cons by congruence.
-      change (x10 :: b) with ([x10] ++ b ++ []). rewrite app_nil_r.
-      replace ([x10] ++ b) with ([x10] ++ b ++ []) by (rewrite app_nil_r; reflexivity).
+      replace (x10 :: b) with ([x10] ++ b ++ []) by (rewrite app_nil_r; reflexivity).
       rewrite (load_step_varint h_sn _ 2 n [x10] b [] (0, 0) (0, n)); try lia; try assumption.
       * destruct (length b); reflexivity.
       * exact enc_key_2_0.
@@ -281,3 +280,473 @@ Proof.
         [|exact enc_key_2_0|apply h_sn_2, Hn].
       destruct f; reflexivity.
 Qed.
+
+(* a message-typed field: encoder meets the wire specification, Message.load finds the payload *)
+Lemma outer_roundtrip {A} (conv : list byte -> result A) fno inner (st0 v : A) :
+  0 < fno < 2 ^ 29 -> Zlength inner < 2 ^ 63 -> conv inner = Ok v ->
+  exists bs, ser_msg_field fno inner = Ok bs /\ msg_field_wire fno inner bs /\
+             load_loop (h_outer conv fno) (S (length bs)) bs st0 = Ok v.
+Proof.
+  intros Hf Hl Hc. unfold ser_msg_field.
+  assert (Hl0 : 0 <= Zlength inner) by (unfold Zlength; lia).
+  rewrite key_of_arith by lia.
+  destruct (encode_in_range (2 + fno * 8) ltac:(lia)) as (kb & Ek & Ck & _).
+  destruct (encode_in_range (Zlength inner) ltac:(lia)) as (lb & El & Cl & _).
+  unfold wrap64 in *. rewrite Z.mod_small in Ck, Cl by lia.
+  rewrite Ek, El. cbn [bind]. exists (kb ++ lb ++ inner).
+  split; [reflexivity|]. split; [exists kb, lb; auto|].
+  assert (Hne : kb ++ lb ++ inner <> []).
+  { destruct Ck as (Sh & _). apply varint_shape_nonempty in Sh. destruct kb; [congruence|discriminate]. }
+  rewrite load_loop_cons by exact Hne.
+  replace (kb ++ lb ++ inner) with (kb ++ lb ++ inner ++ []) at 2 by (rewrite app_nil_r; reflexivity).
+  rewrite (load_step_lendelim (h_outer conv fno) _ fno kb lb inner [] st0 v); try lia.
+  - destruct (length (kb ++ lb ++ inner)) eqn:E; [|reflexivity].
+    apply length_zero_iff_nil in E. contradiction.
+  - rewrite key_of_arith by lia. exact Ek.
+  - exact El.
+  - unfold h_outer. replace ((fno =? fno) && (2 =? 2)) with true by lia. exact Hc.
+Qed.
+
+Lemma Zlength_le_22 (l : list byte) : (length l <= 22)%nat -> Zlength l < 2 ^ 63.
+Proof. unfold Zlength. lia. Qed.
+
+Theorem bytes_parse_ts fno dt :
+  0 < fno < 2 ^ 29 -> in_ts_range (instant dt) ->
+  exists bs, bytes_ts fno dt = Ok bs /\ ts_field_wire fno (instant dt) bs /\
+             parse_ts fno bs = Ok (mkdt (instant dt) 0).
+Proof.
+  intros Hf R. unfold bytes_ts, parse_ts.
+  destruct (instant dt =? 0) eqn:Z0.
+  - exists []. split; [reflexivity|]. split; [left; split; [lia|reflexivity]|].
+    cbn. replace (instant dt) with 0 by lia. reflexivity.
+  - pose proof (to_from_datetime dt R) as T. rewrite from_datetime_is_spec in *.
+    unfold ts_of_us in *. set (s := instant dt / 1000000) in *. set (n := instant dt mod 1000000 * 1000) in *.
+    assert (Hs : - 2 ^ 63 <= s < 2 ^ 63) by (unfold in_ts_range, TS_MIN_US, TS_MAX_US in R; subst s; lia).
+    assert (Hn : - 2 ^ 31 <= n < 2 ^ 31) by (subst n; lia).
+    destruct (bytes_parse_sn s n Hs Hn) as (inner & Ei & Wi & Pi & Li & _).
+    rewrite Ei. cbn [bind].
+    destruct (outer_roundtrip (fun p => do (s, n) <- parse_sn p; to_datetime s n) fno inner DATETIME_ZERO
+                (mkdt (instant dt) 0) Hf (Zlength_le_22 _ Li)) as (bs & Eb & Wb & Pb).
+    { rewrite Pi. cbn [bind]. exact T. }
+    exists bs. split; [exact Eb|]. split; [|exact Pb].
+    right. split; [lia|]. exists inner. split; [exact Wb|]. exact Wi.
+Qed.
+
+Theorem bytes_parse_dur fno d :
+  0 < fno < 2 ^ 29 -> Z.abs (td_days d) <= 999999999 ->
+  exists bs, bytes_dur fno d = Ok bs /\ dur_field_wire fno d bs /\ parse_dur fno bs = Ok d.
+Proof.
+  intros Hf R. unfold bytes_dur, parse_dur.
+  destruct (d =? 0) eqn:Z0.
+  - exists []. split; [reflexivity|]. split; [left; split; [lia|reflexivity]|].
+    cbn. f_equal. lia.
+  - pose proof (to_from_timedelta d R) as T. rewrite from_timedelta_is_spec in *.
+    unfold dur_of_us in *. set (s := Z.quot d 1000000) in *. set (n := Z.rem d 1000000 * 1000) in *.
+    assert (Hs : - 2 ^ 63 <= s < 2 ^ 63) by (unfold td_days, DAY_US in R; subst s; lia).
+    assert (Hn : - 2 ^ 31 <= n < 2 ^ 31) by (subst n; lia).
+    destruct (bytes_parse_sn s n Hs Hn) as (inner & Ei & Wi & Pi & Li & _).
+    rewrite Ei. cbn [bind].
+    destruct (outer_roundtrip (fun p => do (s, n) <- parse_sn p; to_timedelta s n) fno inner 0 d Hf (Zlength_le_22 _ Li))
+      as (bs & Eb & Wb & Pb).
+    { rewrite Pi. cbn [bind]. exact T. }
+    exists bs. split; [exact Eb|]. split; [|exact Pb].
+    right. split; [lia|]. exists inner. split; [exact Wb|]. exact Wi.
+Qed.
+
+(* time zones: the bytes depend on the instant only *)
+Theorem bytes_ts_tz fno a b : instant a = instant b -> bytes_ts fno a = bytes_ts fno b.
+Proof. intros H. unfold bytes_ts. rewrite (from_datetime_tz a b H), H. reflexivity. Qed.
+
+(* len(m) is the length of bytes(m), by the same walk *)
+Theorem len_ts_bytes fno dt : match bytes_ts fno dt, len_ts fno dt with
+                              | Ok b, Ok n => n = Zlength b | Err a, Err b => a = b | _, _ => False end.
+Proof. unfold len_ts. destruct (bytes_ts fno dt); cbn [bind]; reflexivity. Qed.
+Theorem len_dur_bytes fno d : match bytes_dur fno d, len_dur fno d with
+                              | Ok b, Ok n => n = Zlength b | Err a, Err b => a = b | _, _ => False end.
+Proof. unfold len_dur. destruct (bytes_dur fno d); cbn [bind]; reflexivity. Qed.
+
+(* ====================================================================================== *)
+(* 3. decimal notation                                                                     *)
+(* ====================================================================================== *)
+Lemma digit_byte d : 0 <= d <= 9 -> Z_of_byte (digit d) = 48 + d.
+Proof. intros H. unfold digit. apply Z_of_byte_of_Z. lia. Qed.
+
+Lemma digit_is_digit d : 0 <= d <= 9 -> is_digit (digit d) = true.
+Proof. intros H. unfold is_digit. rewrite digit_byte by exact H. lia. Qed.
+
+Lemma dval_app l b : dval (l ++ [b]) = 10 * dval l + (Z_of_byte b - 48).
+Proof. unfold dval. rewrite fold_left_app. reflexivity. Qed.
+
+Lemma dval_snoc_digit l d : 0 <= d <= 9 -> dval (l ++ [digit d]) = 10 * dval l + d.
+Proof. intros H. rewrite dval_app, digit_byte by exact H. lia. Qed.
+
+Lemma pad_length k n : length (pad k n) = k.
+Proof. revert n; induction k as [|k IH]; intros n; cbn [pad]; [reflexivity|]. rewrite app_length, IH. cbn. lia. Qed.
+
+Lemma pad_digits k n : Forall (fun b => is_digit b = true) (pad k n).
+Proof.
+  revert n; induction k as [|k IH]; intros n; cbn [pad]; [constructor|].
+  apply Forall_app. split; [apply IH|]. constructor; [|constructor]. apply digit_is_digit. lia.
+Qed.
+
+Lemma dval_pad k n : 0 <= n -> dval (pad k n) = n mod 10 ^ Z.of_nat k.
+Proof.
+  revert n; induction k as [|k IH]; intros n Hn.
+  - cbn. rewrite Z.mod_1_r. reflexivity.
+  - cbn [pad]. rewrite dval_snoc_digit by lia. rewrite IH by lia.
+    rewrite Nat2Z.inj_succ, Z.pow_succ_r by lia.
+    assert (P : 0 < 10 ^ Z.of_nat k) by (apply Z.pow_pos_nonneg; lia).
+    rewrite Z.rem_mul_r by lia. lia.
+Qed.
+
+Lemma pad_zero k : pad k 0 = repeat c0 k.
+Proof.
+  induction k as [|k IH]; [reflexivity|]. cbn [pad]. change (0 / 10) with 0. change (0 mod 10) with 0.
+  rewrite IH. change (digit 0) with c0. symmetry. apply repeat_cons.
+Qed.
+
+Lemma digs_digits f n : 0 <= n -> Forall (fun b => is_digit b = true) (digs f n).
+Proof.
+  revert n; induction f as [|f IH]; intros n Hn; cbn [digs]; [constructor|].
+  apply Forall_app. split.
+  - destruct (n / 10 =? 0); [constructor|]. apply IH. lia.
+  - constructor; [|constructor]. apply digit_is_digit. lia.
+Qed.
+
+Lemma dval_digs f n : 0 <= n < 10 ^ Z.of_nat f -> dval (digs f n) = n.
+Proof.
+  revert n; induction f as [|f IH]; intros n Hn.
+  - cbn in Hn. assert (n = 0) by lia. subst. reflexivity.
+  - cbn [digs]. rewrite dval_snoc_digit by lia.
+    rewrite Nat2Z.inj_succ, Z.pow_succ_r in Hn by lia.
+    destruct (n / 10 =? 0) eqn:E.
+    + cbn. lia.
+    + rewrite IH by lia. lia.
+Qed.
+
+Lemma digs_nonempty f n : digs (S f) n <> [].
+Proof. cbn [digs]. destruct (if n / 10 =? 0 then [] else digs f (n / 10)); discriminate. Qed.
+
+Lemma dec_fuel n : 0 <= n -> n < 10 ^ Z.of_nat (S (Z.to_nat (Z.log2 n))).
+Proof.
+  intros Hn. destruct (Z.eq_dec n 0) as [->|Hne]; [cbn; lia|].
+  pose proof (Z.log2_spec n ltac:(lia)) as [_ Hs]. pose proof (Z.log2_nonneg n).
+  rewrite Nat2Z.inj_succ, Z2Nat.id by lia.
+  apply Z.lt_le_trans with (2 ^ Z.succ (Z.log2 n)); [exact Hs|].
+  apply Z.pow_le_mono_l. lia.
+Qed.
+
+Lemma dval_dec n : 0 <= n -> dval (dec n) = n.
+Proof. intros Hn. apply dval_digs. split; [exact Hn|apply dec_fuel, Hn]. Qed.
+Lemma dec_digits n : 0 <= n -> Forall (fun b => is_digit b = true) (dec n).
+Proof. intros Hn. apply digs_digits, Hn. Qed.
+Lemma dec_nonempty n : dec n <> [].
+Proof. apply digs_nonempty. Qed.
+
+(* f"{x:0kd}" prints exactly k digits when x < 10^k *)
+Lemma fmt0_digs k : forall f x, 0 <= x < 10 ^ Z.of_nat (S k) -> x < 10 ^ Z.of_nat (S f) ->
+  repeat c0 (S k - length (digs (S f) x)) ++ digs (S f) x = pad (S k) x.
+Proof.
+  induction k as [|k IH]; intros f x Hx Hf.
+  - change (Z.of_nat 1) with 1 in Hx. rewrite Z.pow_1_r in Hx.
+    cbn [digs pad]. replace (x / 10 =? 0) with true by lia. cbn. reflexivity.
+  - change (pad (S (S k)) x) with (pad (S k) (x / 10) ++ [digit (x mod 10)]).
+    change (digs (S f) x) with ((if x / 10 =? 0 then [] else digs f (x / 10)) ++ [digit (x mod 10)]).
+    rewrite (Nat2Z.inj_succ (S k)), Z.pow_succ_r in Hx by lia.
+    destruct (x / 10 =? 0) eqn:E.
+    + cbn [app length]. replace (x / 10) with 0 by lia. rewrite pad_zero.
+      replace (S (S k) - 1)%nat with (S k) by lia. reflexivity.
+    + destruct f as [|f].
+      { change (Z.of_nat 1) with 1 in Hf. rewrite Z.pow_1_r in Hf. lia. }
+      rewrite (Nat2Z.inj_succ (S f)), Z.pow_succ_r in Hf by lia.
+      rewrite app_length. cbn [length].
+      replace (S (S k) - (length (digs (S f) (x / 10)) + 1))%nat with (S k - length (digs (S f) (x / 10)))%nat by lia.
+      rewrite app_assoc. rewrite IH by lia. reflexivity.
+Qed.
+
+Lemma fmt0_pad k x : 0 <= x < 10 ^ Z.of_nat (S k) -> fmt0 (S k) x = pad (S k) x.
+Proof.
+  intros Hx. unfold fmt0, dec. apply fmt0_digs; [exact Hx|apply dec_fuel; lia].
+Qed.
+
+Lemma span_digits_app ds rest :
+  Forall (fun b => is_digit b = true) ds ->
+  match rest with [] => True | c :: _ => is_digit c = false end ->
+  span_digits (ds ++ rest) = (ds, rest).
+Proof.
+  intros Hd Hr. induction Hd as [|d ds Hd1 _ IH].
+  - cbn [app]. destruct rest as [|c r]; [reflexivity|]. cbn [span_digits]. rewrite Hr. reflexivity.
+  - cbn [app span_digits]. rewrite Hd1, IH. reflexivity.
+Qed.
+
+Lemma digit_not b c : is_digit b = true -> is_digit c = false -> Byte.eqb b c = false.
+Proof.
+  intros Hb Hc. destruct (Byte.eqb b c) eqn:E; [|reflexivity].
+  apply Byte.byte_dec_bl in E. subst. congruence.
+Qed.
+
+(* ====================================================================================== *)
+(* 4. JSON forms                                                                            *)
+(* ====================================================================================== *)
+Lemma is_nil_pad k n : is_nil (pad (S k) n) = false.
+Proof. cbn [pad]. destruct (pad k (n / 10)); reflexivity. Qed.
+Lemma is_nil_dec n : is_nil (dec n) = false.
+Proof. pose proof (dec_nonempty n). destruct (dec n); [congruence|reflexivity]. Qed.
+
+(* timestamp_to_json never takes its broken last branch and writes the RFC 3339 form of the instant *)
+Theorem timestamp_to_json_is_spec cal dt :
+  timestamp_to_json cal dt = Ok (ts_json cal (snd (ts_of_us (instant dt)))).
+Proof.
+  unfold timestamp_to_json, timestamp_to_json_us, ts_json, ts_of_us, frac. cbn [snd].
+  set (u := instant dt mod 1000000). assert (Hu : 0 <= u < 1000000) by (subst u; lia).
+  destruct (u * 1000 mod 1000000000 =? 0) eqn:E1; [reflexivity|].
+  destruct (u * 1000 mod 1000000 =? 0) eqn:E2.
+  - rewrite (fmt0_pad 2) by (change (10 ^ Z.of_nat 3) with 1000; lia). reflexivity.
+  - replace (u * 1000 mod 1000 =? 0) with true by lia.
+    rewrite (fmt0_pad 5) by (change (10 ^ Z.of_nat 6) with 1000000; lia). reflexivity.
+Qed.
+
+(* reading the suffix back gives the microsecond *)
+Theorem ts_suffix_roundtrip u : 0 <= u < 1000000 -> ts_suffix_parse (frac (u * 1000) ++ [cZ]) = Some u.
+Proof.
+  intros Hu. unfold frac.
+  destruct (u * 1000 mod 1000000000 =? 0) eqn:E1.
+  - cbn. f_equal. lia.
+  - assert (Hz : is_digit cZ = false) by reflexivity.
+    destruct (u * 1000 mod 1000000 =? 0) eqn:E2; [|replace (u * 1000 mod 1000 =? 0) with true by lia];
+      cbn [app]; unfold ts_suffix_parse;
+      change (Byte.eqb cDOT cZ) with false; change (Byte.eqb cDOT cDOT) with true; cbv iota;
+      rewrite span_digits_app by (try apply pad_digits; exact Hz);
+      rewrite is_nil_pad; change (Byte.eqb cZ cZ && is_nil []) with true; cbv iota;
+      rewrite firstn_all2 by (rewrite pad_length; lia); rewrite pad_length, dval_pad by lia; f_equal.
+    + change (10 ^ Z.of_nat 3) with 1000. change (10 ^ (6 - Z.of_nat 3)) with 1000. lia.
+    + change (10 ^ Z.of_nat 6) with 1000000. change (10 ^ (6 - Z.of_nat 6)) with 1. lia.
+Qed.
+
+(* Duration: outside whole seconds the string is the reference's *)
+Theorem delta_to_json_is_spec d : d mod 1000000 <> 0 ->
+  delta_to_json d = dur_json (fst (dur_of_us d)) (snd (dur_of_us d)).
+Proof.
+  intros Hd. unfold delta_to_json, dur_json, dur_of_us, frac. cbn [fst snd].
+  change (10 ^ 6) with 1000000.
+  replace ((Z.quot d 1000000 <? 0) || (Z.rem d 1000000 * 1000 <? 0)) with (d <? 0) by lia.
+  replace (Z.abs (Z.quot d 1000000)) with (Z.abs d / 1000000) by lia.
+  replace (Z.abs (Z.rem d 1000000 * 1000)) with (Z.abs d mod 1000000 * 1000) by lia.
+  set (u := Z.abs d mod 1000000). assert (Hu : 0 < u < 1000000) by (subst u; lia).
+  replace (u * 1000 mod 1000000000 =? 0) with false by lia.
+  replace (u * 1000 mod 1000000 =? 0) with (u mod 1000 =? 0) by lia.
+  destruct (u mod 1000 =? 0) eqn:E.
+  - rewrite (fmt0_pad 2) by (change (10 ^ Z.of_nat 3) with 1000; lia).
+    replace (u * 1000 / 1000000) with (u / 1000) by lia. reflexivity.
+  - replace (u * 1000 mod 1000 =? 0) with true by lia.
+    rewrite (fmt0_pad 5) by (change (10 ^ Z.of_nat 6) with 1000000; lia).
+    replace (u * 1000 / 1000) with u by lia. reflexivity.
+Qed.
+
+(* the shape of every string delta_to_json writes: sign, integer part, ".", k digits, "s" *)
+Lemma delta_to_json_shape d :
+  exists k x, (k = 2%nat /\ x = Z.abs d mod 1000000 / 1000 /\ Z.abs d mod 1000 = 0 \/ k = 5%nat /\ x = Z.abs d mod 1000000) /\
+    delta_to_json d = (if d <? 0 then [cMINUS] else []) ++ dec (Z.abs d / 1000000) ++ [cDOT] ++ pad (S k) x ++ [cS].
+Proof.
+  unfold delta_to_json. change (10 ^ 6) with 1000000.
+  set (u := Z.abs d mod 1000000). assert (Hu : 0 <= u < 1000000) by (subst u; lia).
+  destruct (u mod 1000 =? 0) eqn:E.
+  - exists 2%nat, (u / 1000). split; [left; repeat split; subst u; lia|].
+    rewrite (fmt0_pad 2) by (change (10 ^ Z.of_nat 3) with 1000; lia). reflexivity.
+  - exists 5%nat, u. split; [right; split; reflexivity|].
+    rewrite (fmt0_pad 5) by (change (10 ^ Z.of_nat 6) with 1000000; lia). reflexivity.
+Qed.
+
+Lemma dur_parse_shape (neg : bool) S k x :
+  0 <= S -> 0 <= x -> (k < 9)%nat ->
+  dur_parse ((if neg then [cMINUS] else []) ++ dec S ++ [cDOT] ++ pad (Datatypes.S k) x ++ [cS]) =
+  let sgn := if neg then -1 else 1 in
+  Some (sgn * S, sgn * (x mod 10 ^ Z.of_nat (Datatypes.S k) * 10 ^ (9 - Z.of_nat (Datatypes.S k)))).
+Proof.
+  intros HS Hx Hk.
+  assert (Hbody : dur_parse_unsigned neg (dec S ++ [cDOT] ++ pad (Datatypes.S k) x ++ [cS]) =
+                  let sgn := if neg then -1 else 1 in
+                  Some (sgn * S, sgn * (x mod 10 ^ Z.of_nat (Datatypes.S k) * 10 ^ (9 - Z.of_nat (Datatypes.S k))))).
+  { unfold dur_parse_unsigned.
+    rewrite span_digits_app by (try apply dec_digits; try exact HS; reflexivity).
+    rewrite is_nil_dec. cbn [app].
+    change (Byte.eqb cDOT cS) with false. change (Byte.eqb cDOT cDOT) with true. cbv iota.
+    rewrite span_digits_app by (try apply pad_digits; reflexivity).
+    rewrite is_nil_pad. change (Byte.eqb cS cS && is_nil []) with true. rewrite pad_length.
+    replace (true && (Z.of_nat (Datatypes.S k) <=? 9)) with true by lia. cbv iota.
+    rewrite dval_dec, dval_pad by lia. reflexivity. }
+  destruct neg.
+  - cbn [app]. unfold dur_parse. change (Byte.eqb cMINUS cMINUS) with true. cbv iota. exact Hbody.
+  - cbn [app]. unfold dur_parse.
+    pose proof (dec_digits S HS) as Hd. pose proof (dec_nonempty S) as Hn.
+    destruct (dec S) as [|b l] eqn:E; [congruence|].
+    cbn [app]. inversion Hd as [|? ? Hb _]; subst.
+    rewrite (digit_not b cMINUS Hb) by reflexivity.
+    exact Hbody.
+Qed.
+
+(* a conforming reader (the reference's FromJsonString) reads every string delta_to_json writes as
+   the reference's pair - the whole-second strings "N.000s" included *)
+Theorem dur_parse_delta_to_json d : dur_parse (delta_to_json d) = Some (dur_of_us d).
+Proof.
+  destruct (delta_to_json_shape d) as (k & x & Hkx & ->).
+  assert (Hx : 0 <= x) by (destruct Hkx as [(_ & -> & _)|(_ & ->)]; lia).
+  rewrite (dur_parse_shape (d <? 0) (Z.abs d / 1000000) k x) by (destruct Hkx as [(-> & _)|(-> & _)]; lia).
+  cbv zeta. unfold dur_of_us. f_equal.
+  destruct Hkx as [(-> & -> & H0)|(-> & ->)].
+  - change (10 ^ Z.of_nat 3) with 1000. change (10 ^ (9 - Z.of_nat 3)) with 1000000.
+    destruct (d <? 0) eqn:E; f_equal; lia.
+  - change (10 ^ Z.of_nat 6) with 1000000. change (10 ^ (9 - Z.of_nat 6)) with 1000.
+    destruct (d <? 0) eqn:E; f_equal; lia.
+Qed.
+
+(* from_dict reads back what to_dict wrote, exactly *)
+Lemma dec_tokens_shape (neg : bool) S k x :
+  0 <= S -> dec_tokens ((if neg then [cMINUS] else []) ++ dec S ++ [cDOT] ++ pad (Datatypes.S k) x) =
+            Some (neg, dec S, pad (Datatypes.S k) x).
+Proof.
+  intros HS. unfold dec_tokens.
+  assert (Hb : forall r0, r0 = dec S ++ [cDOT] ++ pad (Datatypes.S k) x ->
+    (let '(ip, r1) := span_digits r0 in
+     let '(fp, r2) := match r1 with b :: r => if Byte.eqb b cDOT then span_digits r else ([], r1) | [] => ([], r1) end in
+     if is_nil r2 && negb (is_nil (ip ++ fp)) then Some (neg, ip, fp) else None) = Some (neg, dec S, pad (Datatypes.S k) x)).
+  { intros r0 ->. rewrite span_digits_app by (try apply dec_digits; try exact HS; reflexivity).
+    cbn [app]. change (Byte.eqb cDOT cDOT) with true. cbv iota.
+    rewrite <- (app_nil_r (pad (Datatypes.S k) x)) at 1.
+    rewrite span_digits_app by (try apply pad_digits; exact I).
+    pose proof (dec_nonempty S). destruct (dec S); [congruence|]. reflexivity. }
+  destruct neg.
+  - cbn [app]. change (Byte.eqb cMINUS cMINUS) with true. cbv iota. apply Hb. reflexivity.
+  - cbn [app]. pose proof (dec_digits S HS) as Hd. pose proof (dec_nonempty S) as Hn.
+    destruct (dec S) as [|b l] eqn:E; [congruence|].
+    cbn [app]. inversion Hd as [|? ? Hb' _]; subst.
+    rewrite (digit_not b cMINUS Hb'), (digit_not b cPLUS Hb') by reflexivity.
+    apply Hb. reflexivity.
+Qed.
+
+Theorem parse_duration_delta_to_json d :
+  Z.abs (td_days d) <= 999999999 -> parse_duration (delta_to_json d) = Ok d.
+Proof.
+  intros R. destruct (delta_to_json_shape d) as (k & x & Hkx & ->).
+  unfold parse_duration.
+  rewrite !app_assoc, removelast_last, <- !app_assoc.
+  rewrite dec_tokens_shape by lia. rewrite dval_dec by lia. change (10 ^ 6) with 1000000.
+  assert (E : dval (firstn 6 (pad (S k) x ++ repeat c0 6)) = Z.abs d mod 1000000).
+  { destruct Hkx as [(-> & -> & H0)|(-> & ->)].
+    - replace (firstn 6 (pad 3 (Z.abs d mod 1000000 / 1000) ++ repeat c0 6))
+        with (pad 3 (Z.abs d mod 1000000 / 1000) ++ [c0; c0; c0]).
+      + change [c0; c0; c0] with ([c0] ++ [c0] ++ [c0]). rewrite !app_assoc.
+        change c0 with (digit 0). rewrite !dval_snoc_digit by lia. rewrite dval_pad by lia.
+        change (10 ^ Z.of_nat 3) with 1000. lia.
+      + rewrite firstn_app, pad_length. rewrite firstn_all2 by (rewrite pad_length; lia). reflexivity.
+    - rewrite firstn_app, pad_length. rewrite firstn_all2 by (rewrite pad_length; lia).
+      cbn [Nat.sub firstn]. rewrite app_nil_r, dval_pad by lia. change (10 ^ Z.of_nat 6) with 1000000. lia. }
+  rewrite E. unfold timedelta_new.
+  replace (0 * 1000000 + (if d <? 0 then - (Z.abs d / 1000000 * 1000000 + Z.abs d mod 1000000) else Z.abs d / 1000000 * 1000000 + Z.abs d mod 1000000))
+    with d by (destruct (d <? 0) eqn:Hs; lia).
+  replace (Z.abs (td_days d) >? 999999999) with false by lia. reflexivity.
+Qed.
+
+(* ====================================================================================== *)
+(* 5. uniqueness of the wire form: the bytes are THE canonical proto3 bytes               *)
+(* ====================================================================================== *)
+Lemma field_varint_unique key v a b : field_varint key v a -> field_varint key v b -> a = b.
+Proof.
+  intros [(Hz & ->)|(Hn & x & -> & Cx)] [(Hz' & ->)|(Hn' & y & -> & Cy)]; try congruence.
+  f_equal. eapply canonical_unique; eassumption.
+Qed.
+
+Lemma field_varint_head key v a : field_varint key v a -> a = [] \/ exists t, a = key :: t.
+Proof. intros [(_ & ->)|(_ & x & -> & _)]; [left; reflexivity|right; eexists; reflexivity]. Qed.
+
+Theorem sn_wire_unique s n a b : sn_wire s n a -> sn_wire s n b -> a = b.
+Proof.
+  intros (a1 & a2 & -> & A1 & A2) (b1 & b2 & -> & B1 & B2).
+  rewrite (field_varint_unique _ _ _ _ A1 B1), (field_varint_unique _ _ _ _ A2 B2). reflexivity.
+Qed.
+
+(* ====================================================================================== *)
+(* 6. the pinned (float) code: refutations, computed on the exact binary64 model          *)
+(* ====================================================================================== *)
+Definition str (l : list byte) := l.
+
+(* timedelta(seconds=-1.5): seconds and nanos of opposite sign; the pair reads back as -0.5 s *)
+Lemma pinned_negfrac :
+  from_timedelta_pinned (-1500000) = (-1, 500000000) /\ dur_of_us (-1500000) = (-1, -500000000) /\
+  (do b <- bytes_dur_pinned 1 (-1500000); parse_dur_pinned 1 b) = Ok (-500000) /\
+  from_timedelta_pinned (-1) = (0, 999999000) /\ dur_of_us (-1) = (0, -1000) /\
+  (do b <- bytes_dur_pinned 1 (-1); parse_dur_pinned 1 b) = Ok 999999.
+Proof. vm_compute. repeat split. Qed.
+
+(* beyond 2^53 us the microsecond digit is lost; near the range end the seconds round up *)
+Lemma pinned_2p53 :
+  from_timedelta_pinned (2 ^ 53 + 1) = (9007199254, 740992000) /\ dur_of_us (2 ^ 53 + 1) = (9007199254, 740993000) /\
+  from_timedelta_pinned 315575999999999999 = (315576000000, 0) /\ dur_of_us 315575999999999999 = (315575999999, 999999000).
+Proof. vm_compute. repeat split. Qed.
+
+(* sub-microsecond nanos: half-to-even instead of toward zero *)
+Lemma pinned_to_timedelta_rounds :
+  to_timedelta_pinned 0 1500 = Ok 2 /\ dur_to_us 0 1500 = 1 /\ to_timedelta 0 1500 = Ok 1 /\
+  to_timedelta_pinned 0 999999999 = Ok 1000000 /\ dur_to_us 0 999999999 = 999999.
+Proof. vm_compute. repeat split. Qed.
+
+(* JSON: exponent notation; lost precision *)
+Lemma pinned_json_exp :
+  delta_to_json_pinned 1 = [x31; x65; x2d; x30; x36; x73] (* "1e-06s" *) /\ dur_parse (delta_to_json_pinned 1) = None /\
+  delta_to_json_pinned 15 = [x31; x2e; x35; x65; x2d; x30; x35; x30; x73] (* "1.5e-050s" *) /\
+  dur_json 0 1000 = [x30; x2e; x30; x30; x30; x30; x30; x31; x73] (* "0.000001s" *) /\ delta_to_json 1 = dur_json 0 1000.
+Proof. vm_compute. repeat split. Qed.
+
+Lemma pinned_json_precision :
+  dur_parse (delta_to_json_pinned 315575999999999999) = Some (315576000000, 0) /\
+  dur_of_us 315575999999999999 = (315575999999, 999999000) /\
+  parse_duration_pinned (delta_to_json 315575999999999999) = Ok 315576000000000000 /\
+  parse_duration (delta_to_json 315575999999999999) = Ok 315575999999999999.
+Proof. vm_compute. repeat split. Qed.
+
+(* a UTC offset that is not a whole number of seconds: the pinned code prints the local fraction *)
+Lemma pinned_ts_json_offset :
+  let cal := [x31; x39; x36; x39] in   (* stands for the calendar text; any text will do *)
+  let dt := mkdt 499999 500000 in      (* instant -1 us, written at UTC+00:00:00.5 *)
+  timestamp_to_json_pinned cal dt = Ok (ts_json cal 499999000) /\
+  timestamp_to_json cal dt = Ok (ts_json cal 999999000) /\ snd (ts_of_us (instant dt)) = 999999000.
+Proof. vm_compute. repeat split. Qed.
+
+(* the repaired code, whole seconds: three fractional digits where the reference has none (known finding K15-1) *)
+Lemma whole_seconds_json :
+  delta_to_json 1000000 = [x31; x2e; x30; x30; x30; x73] (* "1.000s" *) /\ dur_json 1 0 = [x31; x73] (* "1s" *) /\
+  dur_parse (delta_to_json 1000000) = Some (1, 0).
+Proof. vm_compute. repeat split. Qed.
+
+(* ====================================================================================== *)
+(* 7. the binary64 model [rn] against Coq's primitive (hardware) floats                     *)
+(*    (these checks use PrimFloat primitives; none of the property theorems depends on them) *)
+(* ====================================================================================== *)
+From Coq Require PrimFloat Uint63.
+
+Definition prim_of_fl (x : fl) : PrimFloat.float :=
+  let '(m, e) := x in
+  let a := PrimFloat.of_uint63 (Uint63.of_Z (Z.abs m)) in
+  let v := PrimFloat.ldshiftexp a (Uint63.of_Z (e + 2101)) in
+  if m <? 0 then PrimFloat.opp v else v.
+
+Definition prim_of_Z (z : Z) : PrimFloat.float :=
+  let a := PrimFloat.of_uint63 (Uint63.of_Z (Z.abs z)) in if z <? 0 then PrimFloat.opp a else a.
+
+(* int -> float, float division, float multiplication agree with the hardware on these operands *)
+Definition rn_conv_ok (z : Z) : bool := PrimFloat.eqb (prim_of_Z z) (prim_of_fl (rn z 1)).
+Definition rn_div_ok (a b : Z) : bool :=   (* a, b exactly representable *)
+  PrimFloat.eqb (PrimFloat.div (prim_of_Z a) (prim_of_Z b)) (prim_of_fl (rn a b)).
+Definition rn_mul_ok (a : Z) (x : fl) : bool :=
+  PrimFloat.eqb (PrimFloat.mul (prim_of_Z a) (prim_of_fl x)) (prim_of_fl (rn (a * fl_num x) (fl_den x))).
+
+Definition cross_values : list Z :=
+  [1; 3; 15; 99; 1500000; 999999; 123456789; 2 ^ 53 - 1; 2 ^ 53; 2 ^ 53 + 1; 2 ^ 53 + 3; 2 ^ 54 + 2; 2 ^ 54 + 6;
+   315575999999999999; 315576000000000000; 9007199254740993; 17179869183999999; 2 ^ 62 + 2 ^ 9; 2 ^ 62 + 2 ^ 9 + 1; 86399999999999999].
+
+Example rn_matches_hardware :
+  forallb rn_conv_ok (cross_values ++ map Z.opp cross_values) = true /\
+  forallb (fun z => rn_div_ok (fl_trunc (rn z 1)) 1000000) (cross_values ++ map Z.opp cross_values) = true /\
+  forallb (fun z => rn_div_ok z 1000) [1; 1500; 2500; 999999999; -1500; -1; 123456789; 2147483647; -2147483648] = true /\
+  forallb (fun z => rn_mul_ok 1000000 (rn (z mod 1000000) 1000000)) cross_values = true.
+Proof. vm_compute. repeat split. Qed.
